@@ -55,8 +55,16 @@ def decl_apply_ok(lst, req):
 
 # ---- implementation runners ----------------------------------------------
 class _FakeCurve:
+    """stand-in dataset: acceptance of a list must not depend on what the
+    dataset holds (here: it already has a tip position column)"""
+    columns_innate = ["force", "height (measured)", "tip position", "segment"]
+    columns = columns_innate
+
     def reset_data(self):
         pass
+
+    def __contains__(self, key):
+        return key in self.columns
 
 
 def _kind(e):
